@@ -25,11 +25,13 @@ def make_elf(sections, symbols=(), bits=64):
     ehsize = 64 if is64 else 52
     secs = []
     body = b""
-    for (n, data, ex) in sections:
+    for sec in sections:
+        n, data, ex = sec[0], sec[1], sec[2]
+        sh_type = sec[3] if len(sec) > 3 else 1  # optional 4th element: section type (1 PROGBITS, 7 NOTE, ...)
         nm = add(n)
         pad = (-(ehsize + len(body))) % 16
         body += b"\0" * pad
-        secs.append((nm, 1, (2 | 4) if ex else (2 | 1), ehsize + len(body), len(data)))
+        secs.append((nm, sh_type, (2 | 4) if ex else (2 | 1), ehsize + len(body), len(data), 8 if sh_type == 7 else 16))
         body += data
     strtab = b"\0"
     if is64:
@@ -59,8 +61,8 @@ def make_elf(sections, symbols=(), bits=64):
     if is64:
         fmt = "<IIQQQQIIQQ"
         sh = struct.pack(fmt, 0, 0, 0, 0, 0, 0, 0, 0, 0, 0)
-        for (nm, typ, flags, o, sz) in secs:
-            sh += struct.pack(fmt, nm, typ, flags, 0, o, sz, 0, 0, 16, 0)
+        for (nm, typ, flags, o, sz, al) in secs:
+            sh += struct.pack(fmt, nm, typ, flags, 0, o, sz, 0, 0, al, 0)
         sh += struct.pack(fmt, n_sym, 2, 0, 0, symoff, len(syms), nsec + 2, 1, 8, 24)
         sh += struct.pack(fmt, n_str, 3, 0, 0, stroff, len(strtab), 0, 0, 1, 0)
         sh += struct.pack(fmt, n_shstr, 3, 0, 0, shstroff, len(shstr), 0, 0, 1, 0)
@@ -68,8 +70,8 @@ def make_elf(sections, symbols=(), bits=64):
     else:
         fmt = "<IIIIIIIIII"
         sh = struct.pack(fmt, 0, 0, 0, 0, 0, 0, 0, 0, 0, 0)
-        for (nm, typ, flags, o, sz) in secs:
-            sh += struct.pack(fmt, nm, typ, flags, 0, o, sz, 0, 0, 16, 0)
+        for (nm, typ, flags, o, sz, al) in secs:
+            sh += struct.pack(fmt, nm, typ, flags, 0, o, sz, 0, 0, min(al, 4) if typ == 7 else al, 0)
         sh += struct.pack(fmt, n_sym, 2, 0, 0, symoff, len(syms), nsec + 2, 1, 4, 16)
         sh += struct.pack(fmt, n_str, 3, 0, 0, stroff, len(strtab), 0, 0, 1, 0)
         sh += struct.pack(fmt, n_shstr, 3, 0, 0, shstroff, len(shstr), 0, 0, 1, 0)
